@@ -28,7 +28,17 @@ pub enum Act {
     UseDb { db: usize, cred: Cred },
     /// a command that is refused (e.g. get of a secure key) -- must not disturb the count
     Refused,
-    Disconnect { clean: bool },
+    Disconnect {
+        clean: bool,
+        /// WebSocket, not clean: the connection ends with a frame the protocol layer rejects instead of
+        /// a silent drop
+        #[serde(default)]
+        broken_frame: bool,
+        /// TCP: the session watches a key that is written `busy` times just before it goes away, so
+        /// that it leaves with notifications queued at the server and unread data on the wire
+        #[serde(default)]
+        busy: u32,
+    },
     /// one HTTP request that selects the database and reads a key (its own short-lived session)
     Http { db: usize },
 }
@@ -70,7 +80,7 @@ fn gen(rng: &mut Rng, nsess: usize) -> Program {
                 6 => Act::Http { db: rng.below(ndbs as u64) as usize },
                 _ => {
                     open[s] = false;
-                    Act::Disconnect { clean: rng.chance(1, 2) }
+                    Act::Disconnect { clean: rng.chance(1, 2), broken_frame: rng.chance(1, 2), busy: if rng.chance(1, 3) { rng.range(2, 6) as u32 } else { 0 } }
                 }
             }
         };
@@ -79,7 +89,7 @@ fn gen(rng: &mut Rng, nsess: usize) -> Program {
     // burst ends: everybody leaves
     for s in 0..nsess {
         if open[s] {
-            events.push((s, Act::Disconnect { clean: rng.chance(1, 2) }));
+            events.push((s, Act::Disconnect { clean: rng.chance(1, 2), broken_frame: rng.chance(1, 2), busy: if rng.chance(1, 3) { rng.range(2, 6) as u32 } else { 0 } }));
         }
     }
     Program { transports, events, ndbs }
@@ -270,13 +280,22 @@ fn execute(prog: Program, concurrent: bool) -> Outcome {
                     shape = "refused-command".into();
                 }
             }
-            Act::Disconnect { clean } => {
-                if let Some(c) = conns[*s].take() {
+            Act::Disconnect { clean, broken_frame, busy } => {
+                if let Some(mut c) = conns[*s].take() {
+                    if let (Conn::Tcp(t), Some(db), true) = (&mut c, selected[*s], *busy > 0) {
+                        t.request("watch busy", 2_000);
+                        // written by the (already counted) observer of that database: no session comes or goes
+                        for j in 0..*busy {
+                            observers[db].c.request(&format!("set busy b{}", j), 2_000);
+                        }
+                    }
                     match c {
                         Conn::Tcp(mut t) => t.close(),
                         Conn::Ws(mut x) => {
                             if *clean {
                                 x.close_clean()
+                            } else if *broken_frame {
+                                x.fail_with_broken_frame()
                             } else {
                                 x.drop_abruptly()
                             }
@@ -390,7 +409,7 @@ fn run_act(conn: &mut Option<Conn>, a: &Act, tr: Transport, tcp: &str, ws: &str,
                 c.command("get $$token");
             }
         }
-        Act::Disconnect { clean } => {
+        Act::Disconnect { clean, broken_frame, .. } => {
             if let Some(c) = conn.take() {
                 match c {
                     Conn::Tcp(mut t) => t.close(),
@@ -526,7 +545,7 @@ impl Property for C17 {
         (150_000, 3_000_000)
     }
     fn rule(&self) -> &'static str {
-        "1-3 sessions over the real TCP / WebSocket / HTTP transports of a node booted by start_db (simulated wire), 2-14 events of {connect, use-db with token / wrong token / user token / unknown database (same database again or another one), refused command, disconnect (TCP close, WS close frame, WS abrupt), one-shot HTTP request} over 1-2 databases; an observer session per database (counted) reads $connections after every event at a quiescent point and watches it; 'interleaved' runs the sessions as concurrent tasks and judges the end state; 'burst-direct' lets 2-4 direct sessions select (and switch) databases at the same instant, checks every counter, then lets them all leave at the same instant and checks again (handlers interleave at lock granularity). Non-trivial: a database was selected by at least one non-observer session. distinct = distinct (program, task-switch sequence)."
+        "1-3 sessions over the real TCP / WebSocket / HTTP transports of a node booted by start_db (simulated wire), 2-14 events of {connect, use-db with token / wrong token / user token / unknown database (same database again or another one), refused command, disconnect (TCP close -- optionally with notifications of a watched key queued at the server and unread on the wire, so that the close is a reset --, WS close frame, WS abrupt drop, WS protocol error = on_error then on_close), one-shot HTTP request} over 1-2 databases; an observer session per database (counted) reads $connections after every event at a quiescent point and watches it; 'interleaved' runs the sessions as concurrent tasks and judges the end state; 'burst-direct' lets 2-4 direct sessions select (and switch) databases at the same instant, checks every counter, then lets them all leave at the same instant and checks again (handlers interleave at lock granularity). Non-trivial: a database was selected by at least one non-observer session. distinct = distinct (program, task-switch sequence)."
     }
     fn assumptions(&self) -> Vec<String> {
         vec![
